@@ -13,7 +13,11 @@ gama's own result readers (harness/xmlrt.cpp), and of
    epoch pairs (lib/n12_epochs.py): {2-D, levelling, 3-D} x identifier set x
    complete product of per-point statuses {xy, z, xyz adjusted, fixed, absent}
    in each of the two epochs, all ordered pairs
-on gama-local-deformation.  See RULE below for the oracles.
+on gama-local-deformation, and of
+   the statistics dimension (lib/n12_nets.py stats_net): degrees of freedom
+   {0,1,2,3+} x noise level x sigma-act x conf-pr, statistics block compared
+   across XML / read_xml / text / HTML / read_html (check_stats, applied to
+   every gama-local execution of the check).  See RULE below for the oracles.
 """
 import os, sys, json, subprocess, re, math, collections, time
 sys.path.insert(0, os.path.join(os.path.dirname(os.path.abspath(__file__)), "..", "lib"))
@@ -49,7 +53,17 @@ RULE = ("every network of the 40-member family x every string of the 11-item ide
         "stdout): listed points == points with a coordinate adjusted in both files, in byte order of the ids; index triples; shifts and epoch-2 values of "
         "the common coordinates to 1e-5; dim / band / row lengths of the matrix; every element == cov1 + cov2 taken at the rows the two coordinates have in "
         "the two <cov-mat> (1e-5 + 1e-7 relative); reference computed from the two XML files alone; "
-        "state = one distinct (network, id state, band, angular[, language, encoding, epoch]) input or one ordered epoch pair, transition = one execution "
+        "STATISTICS block of EVERY gama-local execution above and of the statistics dimension (lib/n12_nets.py stats_net: levelling networks with 0 / 1 / 2 / 3 / 5 "
+        "and a direction+distance network with 0 / 1 / 2 / 4 degrees of freedom x noise level {0.05, 1, 5} (ratio below / inside / above the interval) x sigma-act "
+        "{apriori, aposteriori} x conf-pr {0.5, 0.9, 0.95, 0.975, 0.9545, 0.99, 0.999} [thorough: x --angular {400, 360}], complete product) compared between "
+        "the adjustment XML (read_xml == XML field by field as above), the text output, the HTML output and read_html, every value to the precision of the "
+        "coarser format: equations, unknowns, degrees of freedom, defect, [pvv], m0 a priori / a posteriori, which one is used and its value, confidence "
+        "probability (whole per cent against three decimals), presence of the test of m0 (not-applicable <=> nothing printed), ratio, lower / upper limit, "
+        "verdict passed / failed, confidence coefficient (HTML, read_html; only printed with redundancy), conf.i. column of every adjusted coordinate == "
+        "confidence-scale x sqrt(cov) of the XML; printed by text and HTML only and compared between the two: partial ratios m0'/m0 (distances / directions / "
+        "angles), maximal decrease of m0, maximal studentized / normalized residual with its observation index, exceeds / does not exceed, critical value, "
+        "significance level; "
+        "state = one distinct (network, id state, band, angular[, language, encoding, epoch, sigma-act, conf-pr, noise]) input or one ordered epoch pair, transition = one execution "
         "of gama-local / compare-xyz / gama-local-deformation / reader harness")
 
 _FAM = None
@@ -498,6 +512,93 @@ def check_text(cx, text, X, net, item, pos, degrees, run):
                 cx.v("C12|text-vs-xml|f", "obs %d: text %.1f, XML %.3f" % (i + 1, rr["f"], o["f"]), run)
 
 
+def _stat_close(g, w, dec, rel=0.0):
+    """printed value g (dec decimals) against the more precise w"""
+    if g is None or w is None or g != g or w != w or abs(g) == float("inf") or abs(w) == float("inf"): return False
+    return abs(g - w) <= 0.5 * 10 ** (-dec) + 1e-7 + (rel + 1e-9) * abs(w)
+
+
+def _stat_sci(g, w, digits):
+    """g printed in scientific notation with `digits` decimals of the mantissa"""
+    if g is None or w is None or g != g or w != w: return False
+    if w == 0 or g == 0: return abs(g - w) <= 1e-30
+    return abs(g - w) <= (0.5 * 10 ** (-digits) + 1e-7) * 10 ** math.floor(math.log10(abs(w))) * 1.0000001
+
+
+def check_stats(cx, D, X, tstat, hstat, G, V_text, V_html, run):
+    """the statistics block of one run across the formats: adjustment XML (D, python parse; read_xml is compared with D field by
+    field elsewhere), text output (tstat), HTML output (hstat), read_html (G) - every value a format prints, to its printed precision;
+    what only text and HTML print (partial ratios, maximal residual, critical value) is compared between these two"""
+    dof = D["pe.degrees-of-freedom"]
+    used = "aposteriori" if D["sd.using-aposteriori"] else "apriori"
+    cls = "dof%s|%s" % (dof if dof < 3 else "3+", used)
+    stx = D.get("sd.status")
+    def bad(fmt, field, detail):
+        cx.v("C12|stats|%s|%s|%s" % (fmt, field, cls), detail + "  [XML: dof %d, used %s, probability %.3f, ratio %.3f in (%.3f, %.3f) %s, scale %.7g]" % (
+            dof, used, D["sd.probability"], D["sd.ratio"], D["sd.lower"], D["sd.upper"], stx, D["sd.confidence-scale"]), run)
+    m0u = D["sd.aposteriori"] if D["sd.using-aposteriori"] else D["sd.apriori"]
+    for fmt, T in (("text-vs-xml", tstat), ("html-vs-xml", hstat)):
+        if T is None: continue
+        for k, dk in (("equations", "pe.equations"), ("unknowns", "pe.unknowns"), ("dof", "pe.degrees-of-freedom"), ("defect", "pe.defect")):
+            if T.get(k) != D[dk]: bad(fmt, k, "%s: %r, XML %r" % (k, T.get(k), D[dk]))
+        for k, w in (("apriori", D["sd.apriori"]), ("aposteriori", D["sd.aposteriori"]), ("m0-used", m0u)):
+            if not _stat_close(T.get(k), w, 2): bad(fmt, k, "%s: printed %r, XML %.7g" % (k, T.get(k), w))
+        if not _stat_sci(T.get("pvv"), D["pe.sum-of-squares"], 5): bad(fmt, "sum-of-squares", "[pvv] printed %r, XML %.7e" % (T.get("pvv"), D["pe.sum-of-squares"]))
+        if T.get("used") != used or T.get("used-label", used) != used: bad(fmt, "used", "standard deviation used: %r / %r, XML %r" % (T.get("used"), T.get("used-label"), used))
+        # the probability is printed in whole per cent here and with three decimals in the XML
+        for k in ("confidence-pct", "interval-pct"):
+            if k == "interval-pct" and k not in T: continue
+            g = T.get(k)
+            if g is None or not abs(g - 100 * D["sd.probability"]) <= 0.5 + 0.05 + 1e-7: bad(fmt, "probability", "%s %r %%, XML probability %.3f" % (k, g, D["sd.probability"]))
+        has = "ratio" in T or "lower" in T or "passed" in T
+        if (stx == "not-applicable") != (not has):
+            bad(fmt, "verdict", "test of m0: printed %s, XML <%s/>" % ("ratio %r interval (%r, %r) %s" % (T.get("ratio"), T.get("lower"), T.get("upper"),
+                {True: "contains", False: "does not contain", None: "?"}[T.get("passed")]) if has else "nothing", stx))
+        elif has:
+            for k in ("ratio", "lower", "upper"):
+                if not _stat_close(T.get(k), D["sd." + k], 3, 1e-7): bad(fmt, k, "%s: printed %r, XML %.3f" % (k, T.get(k), D["sd." + k]))
+            if T.get("passed") is None or T.get("passed") != (stx == "passed") or T.get("passed-label", T.get("passed")) != T.get("passed"):
+                bad(fmt, "verdict", "interval %s the ratio (label %r), XML <%s/>" % ("contains" if T.get("passed") else "does not contain", T.get("passed-label"), stx))
+        if "confidence-scale" in T and not _stat_close(T["confidence-scale"], D["sd.confidence-scale"], 3):
+            bad(fmt, "confidence-scale", "confidence coefficient printed %r, XML %.7e" % (T["confidence-scale"], D["sd.confidence-scale"]))
+    # confidence intervals of the adjusted coordinates = confidence scale x standard deviation
+    sd = diag_sd(X); scale = D["sd.confidence-scale"]
+    for fmt, V in (("text-vs-xml", V_text), ("html-vs-xml", V_html)):
+        if V is None: continue
+        for r in V["coords"]:
+            if r["index"] not in X.orig or "conf" not in r: continue
+            k = X.orig.index(r["index"])
+            if k in sd and not _stat_close(Q.fval(r["conf"]), scale * sd[k], 1, 2e-4):
+                bad(fmt, "confidence-interval", "unknown %d: conf.i. %r, XML confidence-scale x sqrt(cov) = %.4f x %.4f = %.4f" % (r["index"], r["conf"], scale, sd[k], scale * sd[k])); break
+    # read_html
+    if G is not None:
+        fmt = "read_html-vs-xml"
+        for k in ("pe.equations", "pe.unknowns", "pe.degrees-of-freedom", "pe.defect", "sd.using-aposteriori", "pe.connected"):
+            if G.get(k) != D[k]: bad(fmt, k, "%s: read_html %r, XML %r" % (k, G.get(k), D[k]))
+        for k in ("sd.apriori", "sd.aposteriori"):
+            if not _stat_close(G.get(k), D[k], 2): bad(fmt, k, "%s: read_html %r, XML %.7g" % (k, G.get(k), D[k]))
+        if not _stat_sci(G.get("pe.sum-of-squares"), D["pe.sum-of-squares"], 5): bad(fmt, "sum-of-squares", "read_html %r, XML %.7e" % (G.get("pe.sum-of-squares"), D["pe.sum-of-squares"]))
+        g = G.get("sd.probability")
+        if g is None or not abs(g - D["sd.probability"]) <= 0.005 + 0.0005 + 1e-9: bad(fmt, "probability", "read_html %r, XML %.3f" % (g, D["sd.probability"]))
+        if dof > 0:         # the HTML output has the test of m0 and the confidence coefficient only with redundant observations
+            for k in ("sd.ratio", "sd.lower", "sd.upper", "sd.confidence-scale"):
+                if not _stat_close(G.get(k), D[k], 3, 1e-7): bad(fmt, k[3:], "%s: read_html %r, XML %.7g" % (k, G.get(k), D[k]))
+            if G.get("sd.status") != stx: bad(fmt, "verdict", "read_html %r, XML %r" % (G.get("sd.status"), stx))
+    # what only the text and the HTML output print
+    if tstat is not None and hstat is not None:
+        fmt = "text-vs-html"
+        keys = [k for k, _ in Q._PARTIAL] + ["max-decrease", "max-kind", "max-residual", "max-exceeds", "critical-value", "significance-pct", "max-index"]
+        for k in keys:
+            a, b = tstat.get(k), hstat.get(k)
+            if a is None and b is None: continue
+            dec = {"max-residual": 2, "critical-value": 2, "significance-pct": 0}.get(k, 3)
+            if isinstance(a, float) and isinstance(b, float): ok = _stat_close(a, b, dec + 1)      # both are rounded to dec decimals
+            else: ok = (a == b)
+            if not ok: bad(fmt, k, "%s: text %r, HTML %r" % (k, a, b))
+    cx.out["statistics compared: %s" % cls] += 1
+    if stx: cx.out["test of m0: %s" % stx] += 1
+
+
 def check_svg(cx, svg, net, item, pos, run):
     pc = posclass(pos)
     try:
@@ -593,6 +694,14 @@ def one_run(cx, net, gkf_text, band, ang, item, pos, tmp, exes, tag, keep=False,
         tb = rd(outs["txt"])
         if tb is None: cx.v("C12|text|missing", "no text file", run)
         else: check_text(cx, tb.decode("utf8", "surrogateescape"), X, net, item, pos, degrees, run)
+        try:
+            tt = tb.decode("utf8", "surrogateescape") if tb is not None else None
+            hs = Q.html_stats(H) if H is not None else None
+            G = dd[1]["D"] if (hrc == 0 and len(dd) == 2 and dd[1]["end"].startswith("ok") and not html_markup) else None
+            check_stats(cx, D, X, Q.text_stats(tt) if tt is not None else None, hs, G,
+                        Q.text_view(tt, degrees) if tt is not None else None, Q.html_view(H) if H is not None else None, run)
+        except (ValueError, IndexError, KeyError) as e:
+            cx.v("C12|stats|unparsable|%s|%s" % (posclass(pos), item), "%s: %r" % (type(e).__name__, e), run)
         if full:
             sb = rd(outs["svg"])
             if sb is not None and any(p.xy is not None for p in net.points): check_svg(cx, sb, net, item, pos, run)
@@ -929,9 +1038,31 @@ def task_epochs(task):
     return (cx.viol, dict(cx.out), dict(cx.cnt), cx.sample)
 
 
+def task_stats(task):
+    """statistics dimension: one (template = degrees of freedom, noise level) x sigma-act x conf-pr [x angular]; every run goes
+    through all per-run oracles of one_run, check_stats among them"""
+    viol = []; out = collections.Counter(); cnt = collections.Counter(); sample = None
+    tmp, exes = task["tmp"], task["exes"]
+    for sa in task.get("sigma_acts") or N.SIGMA_ACT:
+        for cp in task.get("conf_prs") or N.CONF_PR:
+            for ang in task.get("angulars") or [400]:
+                t = dict(task, sigma_act=sa, conf_pr=cp); t.pop("sigma_acts", None); t.pop("conf_prs", None); t.pop("angulars", None)
+                cx = Ctx(t)
+                net = N.stats_net(task["name"], task["noise"], sa, cp)
+                tag = "S_%s_%s_%s_%s_%d" % (task["name"], task["noise"], sa, str(cp).replace(".", ""), ang)
+                r = one_run(cx, net, task.get("gkf_override") or N.gkf(net), -1, ang, "plain", "none", tmp, exes, tag, full=False)
+                cx.cnt["states"] += 1; cx.cnt["statistics runs"] += 1
+                if r is not None:
+                    cx.out["statistics dimension: conf-pr %s" % cp] += 1
+                viol += cx.viol; out.update(cx.out); cnt.update(cx.cnt)
+                sample = "statistics: net=%s noise=%s sigma-act=%s conf-pr=%s angular=%d" % (task["name"], task["noise"], sa, cp, ang)
+    return (viol, dict(out), dict(cnt), sample)
+
+
 def run_task(task):
     try:
         if task["kind"] == "lang": return task_lang(task)
+        if task["kind"] == "stats": return task_stats(task)
         if task["kind"] == "epochprep": return task_epochprep(task)
         if task["kind"] == "epochs": return task_epochs(task)
         return task_idstate(task)
@@ -975,6 +1106,30 @@ def build_tasks(ck, exes):
             for ang in ((400,) if quick else (400, 360)):
                 tasks.append(dict(base, kind="lang", net=ni, pos=pos, item=item, angular=ang))
     return tasks
+
+
+def build_stats_tasks(ck, exes):
+    only = [x for x in os.environ.get("C12_NETS", "").split(",") if x]
+    if only and "stats" not in only: return []
+    base = {"tmp": ck.tmp, "exes": exes}
+    return [dict(base, kind="stats", name=nm, noise=nz, angulars=([400] if ck.tier == "quick" else [400, 360]))
+            for nm in N.stats_names() for nz, _ in N.NOISE]
+
+
+def replay_stats(ck, exes, rp):
+    case = rp["case"]
+    task = dict(kind="stats", name=case["name"], noise=case["noise"], sigma_acts=[case["sigma_act"]], conf_prs=[case["conf_pr"]],
+                angulars=[case.get("angular", 400)], tmp=ck.tmp, exes=exes)
+    stored = (rp.get("files") or {}).get("input.gkf")
+    if stored: task["gkf_override"] = stored
+    viol, out, cnt, sample = run_task(task)
+    print("replay: gama-local input.gkf --xml --text --html --octave --angular %s  (statistics network %s, noise %s, sigma-act %s, conf-pr %s)" % (
+        case.get("angular", 400), case["name"], case["noise"], case["sigma_act"], case["conf_pr"]))
+    hits = [v for v in viol if v[0] == rp["sig"]]
+    for sg, dt, r in viol:
+        print(("SAME " if sg == rp["sig"] else "other") + " " + sg + " :: " + str(dt)[:400])
+    if not hits: print("violation %s not reproduced" % rp["sig"])
+    sys.exit(1 if hits else 0)
 
 
 def epoch_families(ck):
@@ -1038,6 +1193,8 @@ def replay(ck, exes):
     case = rp["case"]
     if case.get("kind") in ("epochs", "epochprep"):
         replay_epochs(ck, exes, rp)
+    if case.get("kind") == "stats":
+        replay_stats(ck, exes, rp)
     F = fam()
     ni = case["net"] if isinstance(case.get("net"), int) else [n for n, _, _ in F].index(case["net"])
     task = dict(case, net=ni, tmp=ck.tmp, exes=exes)
@@ -1103,7 +1260,9 @@ def main():
     order = sorted(range(len(tasks)), key=lambda i: (0 if tasks[i]["kind"] == "lang" else 1, -fam()[tasks[i]["net"]][1].points.__len__()))
     # the epochs are adjusted first (their XML files are the inputs of the pair tasks), the rows of epoch pairs
     # (up to 609 tool runs each) go to the front of the queue
-    tasks = epairs + [tasks[i] for i in order]
+    stasks = build_stats_tasks(ck, exes)
+    ntasks += len(stasks)
+    tasks = epairs + stasks + [tasks[i] for i in order]
     order = range(len(tasks))
     done = 0
     import concurrent.futures as cf
@@ -1113,9 +1272,9 @@ def main():
         viol, out, cnt, sample = res
         for k, v in out.items(): ck.outcome(k, v)
         for k, v in cnt.items(): ck.count(k, v)
-        if sample and (done % 997 == 1 or (sample.startswith("epochs:") and not files_cache.get("epoch-sample"))):
+        if sample and (done % 997 == 1 or (sample[:7] in ("epochs:", "statist") and not files_cache.get(sample[:7]))):
             ck.sample(sample)
-            if sample.startswith("epochs:"): files_cache["epoch-sample"] = True
+            files_cache[sample[:7]] = True
         for sig, detail, rp in viol:
             rp = dict(rp)
             files = None
@@ -1125,6 +1284,9 @@ def main():
                 if ck.known.match("C12", sig) is None:
                     f_ = tuple(rp["fam"])
                     files = {"epoch1.gkf": EP.gkf(f_, rp["s1"]), "epoch2.gkf": EP.gkf(f_, rp["s2"])}
+            elif rp.get("kind") == "stats":
+                if ck.known.match("C12", sig) is None and "sigma_act" in rp:
+                    files = {"input.gkf": N.gkf(N.stats_net(rp["name"], rp["noise"], rp["sigma_act"], rp["conf_pr"]))}
             else:
                 F = fam()
                 rp["net_name"] = F[rp["net"]][0]
@@ -1178,6 +1340,8 @@ def main():
         "epoch pairs: 2-4 fixed anchors + 3 (thorough also 4) variable points, true coordinates moved by <= 6 mm and noise pattern shifted per epoch, "
         "a-posteriori scaling (every epoch has its own covariance matrix); the shift and epoch-2 columns of a coordinate that is not adjusted in both "
         "epochs (index 0 in the triple) are not judged (the tool prints x2 - 0 there)",
+        "statistics block: formats are compared with each other, never with an independent chi-square / Student / normal quantile; the text output computes "
+        "ratio, limits and critical value in single precision (half a unit of the last printed digit + 1e-7 still holds on the whole enumeration)",
         "reference parsers: python xml.etree (expat) and the small parsers of lib/n12_parse.py"])
 
 
